@@ -413,6 +413,12 @@ def getitem(it, base, idx, frame, node):
     raise Unsupported(f"subscript of {type(base).__name__}")
 
 
+class _Finfo:
+    """np.finfo(float): only .eps is used (machine epsilon of float64, an exact power of two)"""
+
+    eps = 2.0 ** -52
+
+
 class DefaultDict(dict):
     """collections.defaultdict: a missing key is created by calling the factory"""
 
@@ -1137,6 +1143,8 @@ def _cast(it, t, v):
 
 
 def getattr_value(it, v, name):
+    if isinstance(v, _Finfo):
+        return getattr(v, name) if hasattr(v, name) else NOATTR
     from .interp import PyFunc
 
     if isinstance(v, Arr):
@@ -1651,6 +1659,7 @@ def install(it):
     reg("numpy.where", np_where)
     reg("numpy.atleast_2d", np_atleast_2d)
     reg("numpy.searchsorted", np_searchsorted)
+    reg("numpy.finfo", lambda it_, dt=None: _Finfo())
     reg("collections.defaultdict", _mk_defaultdict)
     reg("numpy.atleast_1d", lambda it_, a: a if isinstance(a, Arr) else Arr.new(Vec(1, lambda i: lift(a, "real"), "real")))
     reg("numpy.vstack", np_vstack)
